@@ -7,6 +7,7 @@ mod expand;
 mod front;
 mod ir;
 mod lintser;
+mod locs;
 mod mutser;
 mod shape;
 mod showser;
@@ -32,6 +33,7 @@ fn main()
 		"delta-tree" => delta::stream(&args[2]),
 		"delta-total" => delta::total_stream(&args[2]),
 		"diag" => diag::stream(&args[2]),
+		"loc" => locs::stream(&args[2]),
 		"expand" => expand::stream(&args[2]),
 		"exec" => exec::stream(&args[2], true, false, false),
 		"exec-tools" => exec::stream(&args[2], true, true, false),
